@@ -111,7 +111,7 @@ def usedInverse {α : Type} [Sc α] (d : Nat) (x : List (List α)) (w0 : Option 
   let cov := Model.VolVar.wcov d xc w
   match Model.Student.inv cov with
   | some B => some B
-  | none => Model.Student.inv (Model.VolVar.addRidge cov (Sc.mul (Sc.lit 1 6) (Model.VolVar.trace cov)))
+  | none => Model.Student.inv (Model.VolVar.addRidge d cov (Sc.mul (Sc.lit 1 6) (Model.VolVar.trace cov)))
 
 /-- `volvar.Q n=<nat> d=<nat> x=<n·d scalars, row major> w=<scalars|none>` → `<branch> <radicand> <inverse used, row major | ->` -/
 def volvarQCmd (args : List (String × String)) : String :=
